@@ -77,17 +77,22 @@ def check_append_only(chk, tu):
                 if arr.get('kind') == 'MemberExpr' and arr.get('name') == 'fds' and \
                         'WasiFileDescriptor' in tu.desugar(astdb.qtype(arr)):
                     slot_writers.add(name)
-    ok = set(len_writers) == {'wasiFileDescriptorsAdd'} and all(h == '++' for h, _ in len_writers.get('wasiFileDescriptorsAdd', []))
+    # table helpers are recognised structurally: functions that do not take the calling instance (import implementations always
+    # receive `void* instance` first); names are not frozen, so extracting or renaming a helper is not an alarm
+    def takes_instance(name):
+        ps = astdb.fn_params(tu.functions[name])
+        return bool(ps) and ps[0].get('name') == 'instance'
+    ok = len(len_writers) == 1 and all(h == '++' for hs in len_writers.values() for h, _ in hs) and not any(takes_instance(n_) for n_ in len_writers)
     chk.expect(ok, 'R13.1', 'length-only-grows',
                'the descriptor table length is modified by %r; descriptor numbers stay unique only if it is changed solely by ++ '
-               'in the insertion helper' % ({k: v for k, v in len_writers.items()},), 'wasi.fds.length')
-    chk.expect(slot_writers <= TABLE_HELPERS, 'R13.1', 'slot-writers',
-               'functions outside the table helpers store into descriptor slots: %r' % sorted(slot_writers - TABLE_HELPERS),
-               'wasi.fds.fds[]')
-    chk.expect(fds_users <= TABLE_HELPERS, 'R13.4', 'single-access-path',
-               'wasi.fds is accessed directly by %r instead of through the lookup helper' % sorted(fds_users - TABLE_HELPERS),
-               'wasi.fds')
-    chk.require(len(fds_users) >= 4, 'only %d functions use wasi.fds - anchor drifted' % len(fds_users))
+               'in one insertion helper' % ({k: v for k, v in len_writers.items()},), 'wasi.fds.length')
+    bad_writers = sorted(n_ for n_ in slot_writers if takes_instance(n_))
+    chk.expect(not bad_writers, 'R13.1', 'slot-writers',
+               'import implementations store into descriptor slots directly: %r' % bad_writers, 'wasi.fds.fds[]')
+    bad_users = sorted(n_ for n_ in fds_users if takes_instance(n_))
+    chk.expect(not bad_users, 'R13.4', 'single-access-path',
+               'wasi.fds is accessed directly by the import implementation(s) %r instead of through the lookup helper' % bad_users, 'wasi.fds')
+    chk.require(len(fds_users) >= 2, 'only %d functions use wasi.fds - anchor drifted' % len(fds_users))
     # setters are called only from close / readdir
     callers = {}
     for name, f in tu.functions.items():
